@@ -237,3 +237,16 @@ for _pid, _extra in {
     "C19": "The proxy's reply status in all spellings of the numeric-field alphabet: only a reading of 200 opens the tunnel.",
 }.items():
     _ext(_pid, _extra)
+
+# entry points / module-level defaults as configurations, thin slices of neighbouring axes (wave m)
+for _pid, _extra in {
+    "C01": "The grid also on transports that take 7 bytes / half of each write (the return-value clause under short writes).",
+    "C08": "close() also with an explicit timeout of 0 / 0.5 / 1 on quiet and talkative servers; the time bound scales with the timeout given.",
+    "C10": "Header options that themselves carry Sec-WebSocket-Key / Sec-WebSocket-Version (dict, list, other letter case, value None): exactly one such header, the caller's.",
+    "C12": "Senders (2 and 3 threads), receivers and the sender+receiver mix also on the connection handed out by create_connection() with its defaults (real handshake inside the controlled run).",
+    "C13": "Segment kinds with 125-byte and empty pings / pongs and messages of 125 / 126 / 0 bytes.",
+    "C14": "Every ending also with setReconnect(1) in force and an explicit run_forever(reconnect=0).",
+    "C16": "Ping payload forms: non-ASCII text inside and outside Latin-1, bytes that are not UTF-8, 125-byte payloads.",
+    "C18": "The port field in all spellings of the numeric-field alphabet.",
+}.items():
+    _ext(_pid, _extra)
